@@ -80,23 +80,45 @@ def _build(ctx, out):
         fcntl.flock(lock, fcntl.LOCK_UN)
 
 
-def _run_wasm(ctx, node, wexec, wasm, cases, out, tag="run"):
-    """executes the case lines under Node; returns (list of result dicts or None, log)"""
-    cf = os.path.join(out, tag + ".cases")
-    open(cf, "w").write("\n".join(cases) + "\n")
+def _run_wasm(ctx, node, wexec, wasm, cases, out, tag="run", chunk=800, par=4):
+    """executes the case lines under Node; returns (list of result dicts or None, log).
+    The cases are split over several Node processes: every wScreen.Init leaks its js.FuncOf closures (they are
+    never Released by wscreen.go), so one process must not run an unbounded number of cases."""
     runjs = os.path.join(ctx["root"], "harness", "wasm", "run.js")
-    p = subprocess.run([node, runjs, wexec, wasm, cf, os.path.join(ctx["root"], "gen", "webkeys.txt")],
-                       capture_output=True, text=True, timeout=3000)
-    res = []
-    for l in p.stdout.split("\n"):
-        if l.startswith("{"):
-            try:
-                res.append(json.loads(l))
-            except Exception:
-                pass
-    if p.returncode != 0 or len(res) != len(cases):
-        return None, f"rc={p.returncode} results={len(res)}/{len(cases)}\n{p.stdout[-1500:]}\n{p.stderr[-3000:]}"
-    return res, ""
+    parts = [cases[i:i + chunk] for i in range(0, len(cases), chunk)] or [[]]
+    outs = [None] * len(parts)
+
+    def start(k):
+        cf = os.path.join(out, f"{tag}.{k}.cases")
+        open(cf, "w").write("\n".join(parts[k]) + "\n")
+        return subprocess.Popen([node, runjs, wexec, wasm, cf, os.path.join(ctx["root"], "gen", "webkeys.txt")],
+                                stdout=open(os.path.join(out, f"{tag}.{k}.out"), "w"), stderr=open(os.path.join(out, f"{tag}.{k}.err"), "w"))
+    running, nxt = {}, 0
+    while nxt < len(parts) or running:
+        while nxt < len(parts) and len(running) < par:
+            running[nxt] = start(nxt)
+            nxt += 1
+        k, pr = next(iter(running.items()))
+        try:
+            rc = pr.wait(timeout=3000)
+        except subprocess.TimeoutExpired:
+            pr.kill()
+            rc = -9
+        del running[k]
+        res = []
+        for l in open(os.path.join(out, f"{tag}.{k}.out")):
+            if l.startswith("{"):
+                try:
+                    res.append(json.loads(l))
+                except Exception:
+                    pass
+        if rc != 0 or len(res) != len(parts[k]):
+            for q in running.values():
+                q.kill()
+            err = open(os.path.join(out, f"{tag}.{k}.err")).read()
+            return None, f"chunk {k}: rc={rc} results={len(res)}/{len(parts[k])}\n{err[-3000:]}"
+        outs[k] = res
+    return [x for part in outs for x in part], ""
 
 
 def _model(ctx, lines):
